@@ -2,6 +2,7 @@ import SeqVerif.Props.C16
 import SeqVerif.Model.Replica
 import SeqVerif.Model.ActiveReach
 import SeqVerif.Model.ActiveIndexProofs
+import SeqVerif.Model.BulkCompose
 import SeqVerif.Model.WPIndexLemmas
 import SeqVerif.Spec.StoreLemmas
 /-!
@@ -56,7 +57,7 @@ theorem sys_token_findable (d : Doc) (f v : Bytes) (h : (f, v) ∈ d.tokens) :
 /-- all documents stored by the fraction indexes of the shards `0 .. n-1` -/
 def allDocs (n : Nat) (fracs : Nat → List Merge.FracIdx) : List Doc := storedDocs ((List.range n).flatMap fracs)
 
-theorem mem_allDocs (n : Nat) (fracs : Nat → List Merge.FracIdx) (s : Nat) (hs : s < n) (d : Doc)
+theorem sys_mem_allDocs (n : Nat) (fracs : Nat → List Merge.FracIdx) (s : Nat) (hs : s < n) (d : Doc)
     (hd : d ∈ storedDocs (fracs s)) : d ∈ allDocs n fracs := by
   unfold allDocs storedDocs at *
   obtain ⟨f, hf, hdf⟩ := List.mem_flatMap.mp hd
@@ -154,6 +155,40 @@ theorem sys_i1_indexed (h : List (List Collector.Meta)) (hd : Collector.Distinct
     (ActiveIndex.arrivalDocs (ActiveReach.toActive (Collector.run Collector.Active.empty h))).map (·.id) =
       (ActiveReach.keptRun Collector.Active.empty h).map (fun m => ActiveReach.toID m.id) :=
   ⟨ActiveReach.reachable_search_eq_spec h hd hs hg q from_ to_ asc limit wt, (ActiveReach.reachable_docs h hd hs).1⟩
+
+/-! ## ingest side: what the store is handed (C10 read through `toCollector`) -/
+
+/-- a token `key:value` whose key has no ':' is split back into `(key, value)` by the store's reading of the meta -/
+theorem sys_splitTok_join (k val : Bytes) (hk : ∀ b ∈ k, b ≠ 58) : ActiveReach.splitTok (k ++ 58 :: val) = (k, val) := by
+  unfold ActiveReach.splitTok
+  have h1 : (k ++ 58 :: val).takeWhile (· != 58) = k := by
+    induction k with
+    | nil => simp
+    | cons a as ih =>
+      have ha : a ≠ 58 := hk a (by simp)
+      simp only [List.cons_append, List.takeWhile_cons, bne_iff_ne, ne_eq, ha, not_false_eq_true, if_true]
+      rw [ih (fun b hb => hk b (by simp [hb]))]
+  have h2 : (k ++ 58 :: val).dropWhile (· != 58) = 58 :: val := by
+    clear h1
+    induction k with
+    | nil => simp
+    | cons a as ih =>
+      have ha : a ≠ 58 := hk a (by simp)
+      simp only [List.cons_append, List.dropWhile_cons, bne_iff_ne, ne_eq, ha, not_false_eq_true, if_true]
+      exact ih (fun b hb => hk b (by simp [hb]))
+  rw [h1, h2]; rfl
+
+/-- **C10 -> C17.**  The bulk the store is handed for the accepted documents `S` of a request (`mk` = C10's `metasFor`:
+ID by the time rule, tokens by C11's `indexField` - `c10_stored_metas`) contains, for every document, every meta of
+it, and every token `(key, value)` of that meta (key without ':') is read back by the store as `(key, value)`. -/
+theorem sys_ingest_bulk_metas (mk : Bulk.Bytes → List Bulk.Meta) (S : List Bulk.Bytes) (d : Bulk.Bytes) (hd : d ∈ S)
+    (mm : Bulk.Meta) (hmm : mm ∈ mk d) (t : Bulk.Bytes × Bulk.Bytes) (ht : t ∈ mm.tokens) (hk : ∀ b ∈ t.1, b ≠ 58) :
+    ∃ m ∈ (S.flatMap mk).map Bulk.toCollector, m.id = (mm.mid, mm.rid) ∧
+      ∃ tok ∈ m.tokens, ActiveReach.splitTok tok.bytes = (t.1, t.2) := by
+  refine ⟨Bulk.toCollector mm, List.mem_map_of_mem (List.mem_flatMap.mpr ⟨d, hd, hmm⟩), rfl, ⟨t.1, t.2⟩, ?_, ?_⟩
+  · simp only [Bulk.toCollector, List.mem_map]
+    exact ⟨t, ht, rfl⟩
+  · exact sys_splitTok_join t.1 t.2 hk
 
 /-! ## I1 discharged for the active fraction (no crash, not sealed): C10/C17 metas -> C02 index -> C05 `FracIdx` -/
 
@@ -271,7 +306,7 @@ theorem sys_acked_found_partial (c : Merge.Cfg) (q : Query) (from_ to_ : Nat) (h
     rev hdesc fracs hok hmax hne hall hans
   obtain ⟨s, hs⟩ := sys_ack_full_set coldT hotT oracle hack hS
   obtain ⟨hlt, hdocs⟩ := I1 s 0 (hs 0 hR)
-  have hin : ∀ d ∈ bulk, d ∈ allDocs hot.length fracs := fun d hd => mem_allDocs _ fracs s hlt d (hdocs d hd)
+  have hin : ∀ d ∈ bulk, d ∈ allDocs hot.length fracs := fun d hd => sys_mem_allDocs _ fracs s hlt d (hdocs d hd)
   exact ⟨ids, t, e, h1, h2, fun d hd hw hm => hcompl d (hin d hd) hw hm,
     fun h0 hlen d hd hw hm => hpage h0 hlen d (hin d hd) hw hm, hsound⟩
 
@@ -353,7 +388,7 @@ theorem sys_ingest_to_read_active (c : Merge.Cfg) (f v : Bytes) (from_ to_ : Nat
   obtain ⟨s, hsFull⟩ := sys_ack_full_set coldT hotT oracle hack hS
   obtain ⟨hlt, hB⟩ := J s 0 (hsFull 0 hR)
   obtain ⟨d, hdIn, hdid, hdtok⟩ := (sys_i1_active (hist s) (hd s) (hs s) (hg s) from_).2 m (hfirst s hB m hm)
-  have hdAll : d ∈ allDocs hot.length (fun s => [activeFrac (reached (hist s))]) := mem_allDocs _ _ s hlt d hdIn
+  have hdAll : d ∈ allDocs hot.length (fun s => [activeFrac (reached (hist s))]) := sys_mem_allDocs _ _ s hlt d hdIn
   have hmatch : docMatches (.leaf (.lit f [.text v])) d = true :=
     sys_token_findable d f v (by rw [← hfv]; exact hdtok tok htok)
   have hw : inWindow from_ to_ d = true := by
@@ -385,5 +420,29 @@ theorem sys_fetch_verbatim_partial (hot cold : List (Nat × ShardRes)) (offset s
     rcases b with b | ⟨evs, hb, he⟩
     · exact Or.inl b
     · exact I2 _ evs _ _ hb he
+
+/-! ## non-vacuity -/
+
+/-- two bulks as the store is handed them (the second re-delivers a document): the hypotheses of `sys_i1_active` /
+`sys_ingest_to_read_active` on the history are met, and the token `a:x` of the first document is read back as
+`(a, x)` -/
+example :
+    let h : List (List Collector.Meta) :=
+      [[⟨(7, 1), 10, [⟨[95, 97, 108, 108, 95], []⟩, ⟨[97], [120]⟩], 1⟩, ⟨(5, 9), 8, [⟨[95, 97, 108, 108, 95], []⟩], 2⟩],
+       [⟨(7, 1), 10, [⟨[95, 97, 108, 108, 95], []⟩, ⟨[97], [120]⟩], 1⟩,
+        ⟨(7, 2), 9, [⟨[95, 97, 108, 108, 95], []⟩, ⟨[97], [120]⟩], 3⟩]]
+    Collector.DistinctBulks h ∧ Collector.NonEmptyDocs h ∧ ActiveReach.GoodIDs h ∧
+      ActiveReach.splitTok (Collector.MetaToken.bytes ⟨[97], [120]⟩) = ([97], [120]) := by
+  intro h
+  refine ⟨?_, ?_, ?_, by decide⟩
+  · intro b hb; simp [h] at hb; rcases hb with rfl | rfl <;> decide
+  · intro b hb m hm; simp [h] at hb; rcases hb with rfl | rfl <;> simp at hm <;> rcases hm with rfl | rfl <;> decide
+  · intro b hb m hm; simp [h] at hb
+    rcases hb with rfl | rfl <;> simp at hm <;> rcases hm with rfl | rfl <;> simp [Borders.maxU64]
+
+/-- an acknowledged bulk: one hot shard with two replicas, the first attempt half-fails, the second completes -/
+example :
+    (Replica.storeDocuments ⟨0, 0⟩ ⟨1, 2⟩
+      [([], [(0, .exec [true, false] false)]), ([], [(0, .exec [false, true] false)])] Replica.init).1 = true := by decide
 
 end SV.Sys
